@@ -170,6 +170,87 @@ example : (dynamicQuantize [-3, 0, 5, 12]).range = 15 ∧ (dynamicQuantize [-3, 
     (dynamicQuantize [-3, 0, 5, 12]).y = [0, 51, 136, 255] ∧
     roundHalfEven 5 2 = 2 ∧ roundHalfEven 7 2 = 4 ∧ roundHalfEven (-5) 2 = -2 := by decide
 
+/-! ### T4 over the model function -/
+
+theorem foldl_min_le : ∀ (xs : List Int) (init : Int),
+    xs.foldl min init ≤ init ∧ ∀ x ∈ xs, xs.foldl min init ≤ x
+  | [], init => by simp
+  | y :: ys, init => by
+    have ih := foldl_min_le ys (min init y)
+    simp only [List.foldl_cons, List.mem_cons]
+    refine ⟨by omega, ?_⟩
+    intro x hx
+    rcases hx with rfl | hx
+    · omega
+    · exact ih.2 x hx
+
+theorem le_foldl_max : ∀ (xs : List Int) (init : Int),
+    init ≤ xs.foldl max init ∧ ∀ x ∈ xs, x ≤ xs.foldl max init
+  | [], init => by simp
+  | y :: ys, init => by
+    have ih := le_foldl_max ys (max init y)
+    simp only [List.foldl_cons, List.mem_cons]
+    refine ⟨by omega, ?_⟩
+    intro x hx
+    rcases hx with rfl | hx
+    · omega
+    · exact ih.2 x hx
+
+/-- **C17.T4 (model function)** For the executable model `dynamicQuantize` of
+DynamicQuantizeLinear (exact rational arithmetic, round-half-even, `u8` saturation) and every input
+list: whenever the range is non-zero, every element satisfies
+`|(y_i − zero_point)·scale − x_i| ≤ scale` with `scale = range/255`, stated without division.
+(For f32 the harness compares the operator with this model on inputs where `range/255` is a power
+of two, and checks the same one-step bound directly on random reals.) -/
+theorem c17_dynamic_quantize_model_within_one_step (xs : List Int) (x : Int) (hx : x ∈ xs)
+    (hR : (dynamicQuantize xs).range ≠ 0) :
+    let d := dynamicQuantize xs
+    let y := satTo .u8 (roundHalfEven (255 * x) d.range + d.zeroPoint)
+    y ∈ d.y ∧ -d.range ≤ (y - d.zeroPoint) * d.range - 255 * x ∧
+      (y - d.zeroPoint) * d.range - 255 * x ≤ d.range := by
+  have hmn := foldl_min_le xs 0
+  have hmx := le_foldl_max xs 0
+  have hxmn := hmn.2 x hx
+  have hxmx := hmx.2 x hx
+  unfold dynamicQuantize at hR ⊢
+  simp only [] at hR ⊢
+  split at hR
+  · simp at hR
+  · rename_i hr
+    simp only [hr, if_false]
+    generalize hmnE : xs.foldl min 0 = mn at *
+    generalize hmxE : xs.foldl max 0 = mx at *
+    have hrpos : 0 < mx - mn := by omega
+    -- the clamp in the zero point is the identity
+    have ht : max 0 (min (255 * (mx - mn)) (-(255 * mn))) = -(255 * mn) := by omega
+    rw [ht]
+    have hz := roundHalfEven_nearest (-(255 * mn)) (mx - mn) hrpos
+    have hq := roundHalfEven_nearest (255 * x) (mx - mn) hrpos
+    generalize roundHalfEven (-(255 * mn)) (mx - mn) = z0 at *
+    generalize hqe : roundHalfEven (255 * x) (mx - mn) = q at *
+    -- 0 ≤ z0 ≤ 255, so the saturation of the zero point is the identity
+    have hz0 : 0 ≤ z0 := by
+      apply Classical.byContradiction
+      intro hc
+      have : z0 * (mx - mn) ≤ -1 * (mx - mn) :=
+        Int.mul_le_mul_of_nonneg_right (by omega) (Int.le_of_lt hrpos)
+      omega
+    have hz255 : z0 ≤ 255 := by
+      apply Classical.byContradiction
+      intro hc
+      have : 256 * (mx - mn) ≤ z0 * (mx - mn) :=
+        Int.mul_le_mul_of_nonneg_right (by omega) (Int.le_of_lt hrpos)
+      have e : 256 * (mx - mn) = 256 * mx - 256 * mn := by grind
+      omega
+    have hsat : satTo .u8 z0 = z0 := by simp only [satTo]; omega
+    rw [hsat]
+    refine ⟨List.mem_map.mpr ⟨x, hx, by simp only [hqe]⟩, ?_⟩
+    have key := c17_dynamic_quantize_within_one_step (mx - mn) mn mx x q z0 hrpos rfl ⟨hxmn, hxmx⟩
+      ⟨hq.1, hq.2⟩ ⟨by omega, by omega⟩
+    simpa only [satTo] using key
+
+example : (dynamicQuantize [-3, 0, 5, 12]).range ≠ 0 ∧ (5 : Int) ∈ [-3, 0, 5, 12] := by decide
+
 /-- `QuantizeLinear` saturates and rounds half to even (`scale = 2`, `u8`, zero point 250). -/
 example : quantizeLinear .u8 2 1 250 5 = 252 ∧ quantizeLinear .u8 2 1 250 7 = 254 ∧
     quantizeLinear .u8 2 1 250 100 = 255 ∧ quantizeLinear .i8 2 1 (-120) (-100) = -128 := by decide
